@@ -402,11 +402,14 @@ func run(raw json.RawMessage) (hx.Case, error) {
 			case r.Kind == "pop":
 				lastPop[r.T] = true
 				pops++
+			case r.Kind == "call" && r.K == 0 && lastPop[r.T]:
+				// TickNow in the instant whose tick already ran (next edge scheduled since fix f717b29c)
+				c09++
+				if r.Obs == "drop" {
+					drops++
+				}
 			case r.Kind == "call" && r.Obs == "drop":
 				drops++
-				if r.K == 0 && lastPop[r.T] {
-					c09++
-				}
 			case r.Kind == "ret" && r.B:
 				progress++
 			}
@@ -619,7 +622,7 @@ func directed() []input {
 func gen(r *hx.Rand, tier string) []json.RawMessage {
 	n, nbig := 340, 24
 	if tier == "thorough" {
-		n, nbig = 6000, 600
+		n, nbig = 4000, 400
 	}
 	var out []json.RawMessage
 	for _, in := range directed() {
